@@ -452,8 +452,10 @@ impl Fiber {
       offset < self.fun().chunk().instructions().len(),
       "Offset past end of functions"
     );
+    // max slots does not include the parameters already on the stack
     debug_assert!(
-      slot_depth < self.fun().max_slots(),
+      slot_depth
+        <= self.fun().max_slots() + unsafe { self.stack_top.offset_from(self.stack_start()) } as usize,
       "Slot offset more than function maximum"
     );
 
